@@ -1,3 +1,5 @@
+#[path = "../hist.rs"]
+mod hist;
 fn main() {
-    chumsky_verif_harness::hist::main();
+    hist::main();
 }
